@@ -1535,6 +1535,10 @@ class Executor:
             if name == "get" and args and isinstance(args[0], Ob):
                 v = recv.get(args[0].o)
                 return v if v is not None else (args[1] if len(args) > 1 else Ob(None))
+            if name == "get" and args and not recv.items and not kw:
+                # {}.get(k, d) is d for every hashable k (an unhashable k raises TypeError: callers state
+                # hashability of k as a precondition)
+                return args[1] if len(args) > 1 else Ob(None)
             if name == "copy" and not args:
                 return LD(recv.items)
             if name == "keys" and not args:
